@@ -312,6 +312,10 @@ fn extract_item(f: &syn::File, item: &Value, planned: &BTreeSet<String>, auto_do
                     any_block = true;
                     let mut im2 = im.clone();
                     im2.attrs.clear();
+                    if let (Some(nt), Some((_, tp, _))) = (item["as_trait"].as_str(), im2.trait_.as_mut()) {
+                        // the impl is emitted as an impl of the unit's mirror trait (same method set, contract on the trait)
+                        *tp = syn::parse_str(nt).map_err(|e| format!("as_trait: {e}"))?;
+                    }
                     let mut keep = Vec::new();
                     for ii in im2.items.iter_mut() {
                         match ii {
@@ -537,6 +541,7 @@ fn clean_item(it: &mut syn::Item, derive_keep: &[String], subst: &BTreeMap<Strin
 // ---- function transformation
 
 struct Rules {
+    fmt_write: bool,
     split_find: bool,
     ctor_as_fn: bool,
     map_collect: Option<String>,
@@ -994,6 +999,36 @@ impl<'a> VisitMut for RuleVisitor<'a> {
                             *e = new;
                             self.applied.bump("E4-then_with-inlined");
                             return;
+                        }
+                    }
+                }
+            }
+        }
+        if self.rules.fmt_write {
+            // E32: `write!(f, "{}", X)` / `write!(f, "{X}")` (one plain Display placeholder, no literal text, no format spec) ==>
+            // `vx_write_display(f, &X)`: the macro expands to `f.write_fmt(format_args!("{}", X))`, which appends the Display text of X to the
+            // formatter's output and returns its result; `vx_write_display` is the prelude function with exactly that contract
+            if let Expr::Macro(m) = e {
+                if last_seg(&m.mac.path) == "write" {
+                    let parser = syn::punctuated::Punctuated::<Expr, syn::Token![,]>::parse_terminated;
+                    if let Ok(args) = syn::parse::Parser::parse2(parser, m.mac.tokens.clone()) {
+                        let args: Vec<Expr> = args.into_iter().collect();
+                        let lit = args.get(1).and_then(|a| if let Expr::Lit(syn::ExprLit { lit: syn::Lit::Str(l), .. }) = a { Some(l.value()) } else { None });
+                        if let (Some(dst), Some(text)) = (args.first(), lit) {
+                            let mut repl: Option<Expr> = None;
+                            if text == "{}" && args.len() == 3 {
+                                let x = &args[2];
+                                repl = Some(parse_quote!(vx_write_display(#dst, &(#x))));
+                            } else if args.len() == 2 && text.starts_with('{') && text.ends_with('}') {
+                                if let Ok(id) = syn::parse_str::<syn::Ident>(&text[1..text.len() - 1]) {
+                                    repl = Some(parse_quote!(vx_write_display(#dst, &(#id))));
+                                }
+                            }
+                            if let Some(r) = repl {
+                                *e = r;
+                                self.applied.bump("E32-write-one-display-placeholder");
+                                return;
+                            }
                         }
                     }
                 }
@@ -1662,6 +1697,7 @@ fn transform_fn(
         .map(|a| a.iter().filter_map(|x| x.as_str().map(String::from)).collect())
         .unwrap_or_default();
     let rules = Rules {
+        fmt_write: rule_list.iter().any(|r| r == "E32"),
         split_find: rule_list.iter().any(|r| r == "E19"),
         ctor_as_fn: rule_list.iter().any(|r| r == "E26"),
         map_collect: rule_list.iter().find_map(|r| if r == "E24" { Some(String::new()) } else { r.strip_prefix("E24=").map(String::from) }),
